@@ -268,9 +268,11 @@ Definition indexOf_vec (d : dimd) (m : RangeMatch) (starts ends : list F64) : re
 (* ------------------------------------------------------------------------------------------ *)
 (** * dataAccess.cpp *)
 
-(** scalePositions: [scaling] is declared outside the loop and only re-assigned when entry i has a
-    unit and the dimension has one - it carries over to later entries *)
-Fixpoint scalePositions (starts ends : list F64) (units : list string) (dim_unit : string) (scaling : F64)
+(** scalePositions: every entry is multiplied by the factor of ITS OWN unit - [scaling] is a local of the loop
+    body, 1.0 unless entry i has a unit and the dimension has one (as repaired; until then the variable was
+    declared outside the loop and a factor carried over to later "none" entries: [scalePositions_carry] in
+    Access/VecUnits.v keeps that behaviour and its refutation) *)
+Fixpoint scalePositions (starts ends : list F64) (units : list string) (dim_unit : string)
   : res (list F64 * list F64) :=
   match starts, ends with
   | s :: ss, e :: es =>
@@ -278,10 +280,10 @@ Fixpoint scalePositions (starts ends : list F64) (units : list string) (dim_unit
       let us := match units with _ :: r => r | [] => [] end in
       bind (match u with
             | Some u => if negb (is_none_unit u) && negb (is_none_unit dim_unit)
-                        then scaling_or_incompatible u dim_unit else Ok scaling
-            | None => Ok scaling
+                        then scaling_or_incompatible u dim_unit else Ok fone
+            | None => Ok fone
             end) (fun k =>
-      bind (scalePositions ss es us dim_unit k) (fun r =>
+      bind (scalePositions ss es us dim_unit) (fun r =>
       Ok (fmul s k :: fst r, fmul e k :: snd r)))
   | _, _ => Ok ([], [])
   end.
@@ -292,7 +294,7 @@ Definition positionToIndex_vec (starts ends : list F64) (units : list string) (m
   match d with
   | DSampled _ _ du | DRange _ du =>
       if negb (zlen starts =? zlen ends) || negb (zlen starts =? zlen units) then Err E_Runtime
-      else bind (scalePositions starts ends units (dim_unit_str du) fone) (fun se =>
+      else bind (scalePositions starts ends units (dim_unit_str du)) (fun se =>
            indexOf_vec d m (fst se) (snd se))
   | DSet _ | DFrame _ =>
       if negb (zlen starts =? zlen ends) then Err E_Runtime
